@@ -1636,3 +1636,77 @@ func init() {
 		},
 	}
 }
+
+func init() {
+	props["C19"] = &propDef{
+		ID:       "C19",
+		Anchored: []string{"BorrowInts", "ReturnInts", "BorrowBools", "ReturnBools", "borrowDense", "ReturnTensor", "borrowOpOpt", "returnOpOpt", "SetShape", "CloneTo", ").Clone", ").UT", ").RollAxis", "reuseCheckShape", ").TensorMul", "handleFuncOpts", "recycledDense"},
+		Bounds: map[string]interface{}{"caller_slices": "T / Transpose / UT / ReturnTensor after T, Reshape (also with the tensor's own shape), Sum/Max/Min(along), Repeat, At/SetAt, New(WithShape), TensorMul(axesA,axesB), RollAxis, Slice: argument cells unchanged after the call and after the follow-up, not reachable from tensor metadata, and never handed out by the int pool afterwards",
+			"histories": "programs of 3-9 steps over {new, lazy T, UT, Transpose, Reshape, safe/unsafe/reuse/incr Add, Sum, Clone, Materialize, row-view, Memset through a tensor or view, safe Apply, ReturnTensor, borrow-and-scribble on pooled ints} on up to 6 live tensors with symbolic elements; after EVERY step every live tensor's shape and elements equal its model",
+			"pool_model": "sync.Pool = LIFO stack per pool object (the item just returned is the next one handed out: the most aliasing-adversarial single schedule); channel pools are real code", "outside": "histories longer than 9 steps; other sync.Pool schedules (victim cache, per-P shards)"},
+		Assume: []string{"sync.Pool modelled as a LIFO stack; finalizers never run"},
+		Instances: func(tier string, seed int64) []Instance {
+			var out []Instance
+			add := func(cfg map[string]interface{}, keys ...string) {
+				out = append(out, mkInst("vhC19Args", cfg, keys...))
+			}
+			for _, sp := range []struct {
+				s []int
+				p []int
+			}{{[]int{2, 3}, []int{1, 0}}, {[]int{2, 3, 2}, []int{1, 2, 0}}, {[]int{2, 3, 2}, []int{2, 0, 1}}, {[]int{2, 2, 2, 2}, []int{3, 1, 0, 2}}} {
+				for _, op := range []string{"T", "T-UT", "T-Transpose", "T-Return"} {
+					add(map[string]interface{}{"op": op, "shape": sp.s, "perm": sp.p}, "op", "shape", "perm")
+				}
+			}
+			for _, r := range []struct{ s, to []int }{{[]int{2, 3}, []int{3, 2}}, {[]int{2, 3}, []int{6}}, {[]int{2, 3, 2}, []int{4, 3}}, {[]int{6}, []int{2, 3}}} {
+				add(map[string]interface{}{"op": "Reshape", "shape": r.s, "to": r.to}, "op", "shape", "to")
+				add(map[string]interface{}{"op": "Reshape-own", "shape": r.s}, "op", "shape")
+			}
+			for _, al := range [][]int{{2, 0}, {1, 0}, {0, 1, 2}, {2, 1}, {1}} {
+				for _, op := range []string{"Sum", "Max", "Min"} {
+					add(map[string]interface{}{"op": op, "shape": []int{2, 3, 2}, "along": al}, "op", "along")
+				}
+			}
+			add(map[string]interface{}{"op": "Repeat", "shape": []int{2, 3}, "axis": 1, "reps": []int{1, 0, 2}}, "op", "reps")
+			add(map[string]interface{}{"op": "Repeat", "shape": []int{2, 3}, "axis": 0, "reps": []int{2}}, "op", "reps")
+			for _, op := range []string{"At", "SetAt", "WithShape", "Slice"} {
+				add(map[string]interface{}{"op": op, "shape": []int{2, 3, 2}}, "op", "shape")
+			}
+			add(map[string]interface{}{"op": "TensorMul", "shape": []int{2, 2, 2}, "axesA": []int{2, 0}, "axesB": []int{1, 0}}, "op", "axesA")
+			add(map[string]interface{}{"op": "TensorMul", "shape": []int{2, 2}, "axesA": []int{1}, "axesB": []int{0}}, "op", "axesA")
+			for ax := 0; ax < 3; ax++ {
+				for st := 0; st <= 3; st++ {
+					add(map[string]interface{}{"op": "RollAxis", "shape": []int{2, 3, 2}, "axis": ax, "start": st}, "op", "axis", "start")
+				}
+			}
+			progs := []string{
+				"n0:2x3,n1:2x3,a012,B,n3:2x3",
+				"n0:2x3,n1:2x3,n2:6,U012,B,n3:5x7,a014",
+				"n0:2x3,n1:2x3,n2:3x2,I012,B,n3:4x4",
+				"n0:2x3,t0,n1:3x2,B,u0,n2:2x3,B",
+				"n0:2x3x2,t0,x0,B,n1:2x3x2,R0,n2:2x3x2,B",
+				"n0:2x3,c01,R0,n2:2x3,w2,B",
+				"n0:4x3,v01,z12,w2,B",
+				"n0:4x3,v01,p1,B",
+				"n0:4x3,v01,w1,B,n2:3x3",
+				"n0:2x3,m01,R1,n2:3,w2,B",
+				"n0:2x3,r0:3x2,B,n1:3x2,a012,R2,n3:3x2,B",
+				"n0:2x3,n1:2x3,A01,R1,n2:2x3,B",
+				"n0:2x3,t0,R0,n1:2x3,t1,n2:3x2,B,u1",
+				"n0:2x3x2,m01,m12,R1,n3:3x2,B",
+				"n0:2x2,n1:2x2,a012,a023,R2,a014,B,R3,n5:2x2",
+			}
+			if tier == "thorough" {
+				progs = append(progs,
+					"n0:2x3,n1:2x3,n2:6,U012,R2,n3:6,U013,B,n4:2x3,a045",
+					"n0:3x3,v01,t1,z12,w2,B,u1,w1",
+					"n0:2x3,t0,r0:6,B,n1:6,a012,R2,R1,n3:6,B",
+					"n0:2x3x2,t0,c01,u0,x1,B,R1,n2:2x3x2,B,R0,n3:2x3x2")
+			}
+			for _, p := range progs {
+				out = append(out, mkInst("vhC19Hist", map[string]interface{}{"prog": p}, "prog"))
+			}
+			return out
+		},
+	}
+}
